@@ -355,3 +355,23 @@ func TypeName(t types.Type) string {
 	}
 	return t.String()
 }
+
+// IsLibPkgFn reports whether fn belongs to one of the given library packages.
+func (c *Ctx) IsLibPkgFn(fn *ssa.Function, rels ...string) bool {
+	for fn.Parent() != nil {
+		fn = fn.Parent()
+	}
+	if fn.Pkg == nil {
+		return false
+	}
+	rel, ok := relPath(fn.Pkg.Pkg.Path())
+	if !ok {
+		return false
+	}
+	for _, r := range rels {
+		if r == rel {
+			return true
+		}
+	}
+	return false
+}
